@@ -4,6 +4,7 @@ import (
 	"bufio"
 	"fmt"
 	"io"
+	"os"
 	"os/exec"
 	"strconv"
 	"strings"
@@ -21,20 +22,23 @@ const (
 func (r Res) String() string { return [...]string{"unsat", "sat", "unknown"}[r] }
 
 type Solver struct {
-	bin     string
-	args    []string
-	cmd     *exec.Cmd
-	in      io.WriteCloser
-	out     *bufio.Reader
-	defined map[uint32]bool
-	stack   []*Term // conjuncts currently asserted, one push level each
-	Queries int
-	Time    time.Duration
-	NSat    int
-	NUnsat  int
-	NUnk    int
-	Errors  int
-	log     io.Writer
+	bin           string
+	args          []string
+	cmd           *exec.Cmd
+	in            io.WriteCloser
+	out           *bufio.Reader
+	defined       map[uint32]bool
+	stack         []*Term // conjuncts currently asserted, one push level each
+	Queries       int
+	Time          time.Duration
+	NSat          int
+	NUnsat        int
+	NUnk          int
+	Errors        int
+	log           io.Writer
+	shadow        *Solver
+	isShadow      bool
+	Disagreements int
 }
 
 func NewSolver(kind string) *Solver {
@@ -102,7 +106,28 @@ func (s *Solver) define(sb *strings.Builder, t *Term) {
 }
 
 // Check decides satisfiability of the conjunction; on Sat returns values of all variables in the cone.
+var crossCheck = os.Getenv("GOITSYM_CROSSCHECK") != ""
+
+// Check decides satisfiability of the conjunction (see check1); with GOITSYM_CROSSCHECK set every answer is compared
+// with a fresh, non-incremental solver process.
 func (s *Solver) Check(conj []*Term, timeoutMs int) (Res, Model) {
+	res, m := s.check1(conj, timeoutMs)
+	if crossCheck && s.shadow == nil && !s.isShadow {
+		s.shadow = NewSolver("z3")
+		s.shadow.isShadow = true
+	}
+	if crossCheck && !s.isShadow {
+		s.shadow.Restart()
+		r2, _ := s.shadow.check1(conj, timeoutMs)
+		if r2 != res {
+			fmt.Fprintf(os.Stderr, "SOLVER DISAGREEMENT: incremental=%s fresh=%s (%d conjuncts)\n", res, r2, len(conj))
+			s.Disagreements++
+		}
+	}
+	return res, m
+}
+
+func (s *Solver) check1(conj []*Term, timeoutMs int) (Res, Model) {
 	t0 := time.Now()
 	defer func() { s.Time += time.Since(t0); s.Queries++ }()
 	var sb strings.Builder
